@@ -399,6 +399,12 @@ type Interference struct {
 	At      []string
 	Writers []string
 	Assume  *Clause
+	// Linking names the object of the relying function that the writer acts on (an expression over the
+	// relying function's parameters, e.g. s.db); empty: the first pointer parameter whose type the writer shares.
+	Linking *Clause
+	// Observe is assumed after the havoc like Assume but is not a guarantee of the writers: it defines
+	// ghost snapshots of the state right after the interference (e.g. midWatchers == len(...)).
+	Observe *Clause
 }
 
 type SpecFunc struct {
@@ -652,11 +658,31 @@ func (ss *SpecSet) ParseSpecFile(path string, goComments bool, pkgPath string) e
 				}
 				return out
 			}
-			c, err := mkClause("assume", item{"assume", t[is+len(" assume "):], it.line})
+			at := t[is+len(" assume "):]
+			var obs *Clause
+			if io := strings.Index(at, " observe "); io >= 0 {
+				oc, err := mkClause("observe", item{"observe", at[io+len(" observe "):], it.line})
+				if err != nil {
+					return err
+				}
+				obs = oc
+				at = at[:io]
+			}
+			c, err := mkClause("assume", item{"assume", at, it.line})
 			if err != nil {
 				return err
 			}
-			cur.Interference = append(cur.Interference, &Interference{At: split(t[3:iw]), Writers: split(t[iw+len(" writers ") : is]), Assume: c})
+			ws := t[iw+len(" writers ") : is]
+			var link *Clause
+			if il := strings.Index(ws, " linking "); il >= 0 {
+				lc, err := mkClause("linking", item{"linking", ws[il+len(" linking "):], it.line})
+				if err != nil {
+					return err
+				}
+				link = lc
+				ws = ws[:il]
+			}
+			cur.Interference = append(cur.Interference, &Interference{At: split(t[3:iw]), Writers: split(ws), Assume: c, Linking: link, Observe: obs})
 		case "freshresult":
 			if cur == nil {
 				return fmt.Errorf("%s:%d: freshresult outside func", path, it.line)
